@@ -64,7 +64,7 @@ PROPS = {
         "harnesses": [
             H("c11_timeout_iff", cost=40), H("t_probe_k2", cost=60), H("d_ack", cost=70), H("d_fwd_ack", cost=105),
             H("a_apply1_k1", cost=120), H("t_indirect_k2", cost=70), H("c14_next_k3", cost=40), H("c07_send_pb_17", cost=75), H("d_ping_upd_never", cost=115),
-            H("d_ping_upd", tier=T, cost=900, timeout_t=3600, mem_gb=44), H("d_gossip_upd", tier=T, cost=900, timeout_t=3600, mem_gb=44), H("t_probe_k3", tier=T, cost=120),
+            H("d_ping_upd", tier=T, cost=900, timeout_t=1800, mem_gb=44), H("d_gossip_upd", tier=T, cost=900, timeout_t=1800, mem_gb=44), H("t_probe_k3", tier=T, cost=120),
         ],
     },
     "C06": {
@@ -76,10 +76,10 @@ PROPS = {
             H("c06_set_config_grow", cost=60), H("c06_set_config_shrink", cost=60), H("c06_fuzz_feed_2", cost=120),
             H("c06_fuzz_broadcast_5", cost=120), H("d_ping", cost=80), H("t_probe_k2", cost=60), H("t_indirect_k2", cost=70), H("c06_timer_crafted_suspect", cost=25),
             H("c06_config_new_lan", cost=10, **CD), H("c06_config_new_wan", cost=10, **CD), H("bc_fill_prefix_1", cost=120, **BC),
-            H("c06_set_config_same", tier=T), H("c06_set_config_gossip", tier=T, cost=600, timeout_t=3000), H("c06_fuzz_gossip_7", tier=T, cost=900, timeout_t=3600), H("c06_fuzz_gossip_9", tier=T, cost=900, timeout_t=3600), H("c06_fuzz_ping_7", tier=T, cost=900, timeout_t=3600),
-            H("c06_fuzz_turnundead_3", tier=T, cost=300), H("a_apply1_k2", tier=T, cost=220), H("d_turn_undead_never", tier=T, cost=200), H("d_turn_undead_next", tier=T, cost=600, timeout_t=3000),
+            H("c06_set_config_same", tier=T), H("c06_set_config_gossip", tier=T, cost=600, timeout_t=1800), H("c06_fuzz_gossip_7", tier=T, cost=900, timeout_t=1800), 
+            H("c06_fuzz_turnundead_3", tier=T, cost=300), H("a_apply1_k2", tier=T, cost=220), H("d_turn_undead_never", tier=T, cost=200), 
             H("a_leave", tier=T), H("a_change_identity", tier=T), H("t_announce_down", tier=T, cost=120),
-            H("c07_send_pb_9", tier=T), H("c07_send_feed_failing", tier=T, cost=600, timeout_t=3000),
+            H("c07_send_pb_9", tier=T), 
         ],
     },
     "C07": {
@@ -93,8 +93,8 @@ PROPS = {
             H("c07_send_bare_10", cost=25), H("c07_send_bcast_15", cost=25), H("d_ping", cost=80), H("e4_message_gates_smt", engine="smt", group="gates", cost=80, entry="Message::{needs_piggyback, allow_custom_broadcasts, piggyback_only_active} (MIR -> SMT-LIB2, z3 + cvc5)", bounds="all 11 message kinds; 6 queries x 2 solvers"),
             H("c07_send_pb_9", tier=T), H("c07_send_pb_10", tier=T), H("c07_send_pb_16", tier=T), H("c07_send_pb_21", tier=T),
             H("c07_send_pb_27", tier=T, cost=200), H("c07_send_pb_32", tier=T, cost=300), H("c07_send_feed_12", tier=T), H("c07_send_feed_22", tier=T, cost=200),
-            H("c07_send_feed_32", tier=T, cost=300), H("c07_send_feed_failing", tier=T, cost=600, timeout_t=3000), H("c07_send_bare_32", tier=T),
-            H("c07_send_bcast_14", tier=T), H("c07_send_bcast_32", tier=T), H("d_gossip_custom", tier=T), H("d_announce", tier=T, cost=500, timeout_t=3000),
+            H("c07_send_feed_32", tier=T, cost=300), H("c07_send_feed_failing", tier=T, cost=600, timeout_t=1800), H("c07_send_bare_32", tier=T),
+            H("c07_send_bcast_14", tier=T), H("c07_send_bcast_32", tier=T), H("d_gossip_custom", tier=T), 
             H("c17_announce_payload", tier=T),
         ],
     },
@@ -103,23 +103,23 @@ PROPS = {
         "harnesses": [
             H("a_apply1_k1", cost=120), H("c11_timeout_iff", cost=40), H("d_ping", cost=80), H("a_leave", cost=40), H("a_change_identity", cost=50),
             H("c08_accumulating_runtime", cost=70, entry="AccumulatingRuntime::{notify,submit_after,to_notify,to_schedule}", bounds="3 calls, concrete kind sequence N-T-N, symbolic payloads"),
-            H("d_turn_undead_never", tier=T, cost=200), H("d_turn_undead_next", tier=T, cost=600, timeout_t=3000), H("a_apply1_k2", tier=T, cost=220), H("a_apply1_k3", tier=T, cost=400), H("d_gossip_upd", tier=T, cost=900, timeout_t=3600, mem_gb=44),
+            H("d_turn_undead_never", tier=T, cost=200), H("a_apply1_k2", tier=T, cost=220), H("a_apply1_k3", tier=T, cost=400), 
             H("t_remove", tier=T), H("a_reuse", tier=T), H("c01_monotone", tier=T),
-            H("c08_accumulating_runtime_b", tier=T, cost=70), H("c08_accumulating_send", tier=T, cost=600, timeout_t=3000, entry="AccumulatingRuntime::{send_to,to_send}"),
+            H("c08_accumulating_runtime_b", tier=T, cost=70), H("c08_accumulating_send", tier=T, cost=600, timeout_t=1800, entry="AccumulatingRuntime::{send_to,to_send}"),
         ],
     },
     "C09": {
         "level": "model_checking", "bounds": BOUNDS_E1, "outside": "change_identity to another member's address (identity changes keep the address: the renew contract); " + OUT_E1, "assumptions": [STUBS],
         "harnesses": [
             H("a_apply1_k1", cost=120), H("d_ping", cost=80), H("t_remove", cost=70), H("c01_monotone", cost=15), H("c01_frame", cost=100), H("d_broadcast_custom", cost=65), H("d_gossip_upd_never", cost=90),
-            H("a_apply1_k2", tier=T, cost=220), H("d_gossip_upd", tier=T, cost=900, timeout_t=3600, mem_gb=44), H("d_ping_upd", tier=T, cost=900, timeout_t=3600, mem_gb=44), H("c06_fuzz_gossip_7", tier=T, cost=120), H("a_change_identity", tier=T),
+            H("a_apply1_k2", tier=T, cost=220), H("c06_fuzz_gossip_7", tier=T, cost=120), H("a_change_identity", tier=T),
         ],
     },
     "C10": {
         "level": "model_checking", "bounds": BOUNDS_E1 + "; renew() yielding next / same / losing / no identity", "outside": OUT_E1, "assumptions": [STUBS],
         "harnesses": [
             H("a_apply1_k1", cost=120), H("a_change_identity", cost=50), H("a_reuse", cost=12), H("a_leave", cost=40), H("c01_monotone", cost=15), H("d_ping_upd_never", cost=115),
-            H("d_turn_undead_never", tier=T, cost=200), H("d_turn_undead_next", tier=T, cost=600, timeout_t=3000), H("d_gossip_upd", tier=T, cost=900, timeout_t=3600, mem_gb=44), H("d_ping_upd", tier=T, cost=900, timeout_t=3600, mem_gb=44), H("a_apply1_k2", tier=T, cost=220),
+            H("d_turn_undead_never", tier=T, cost=200), H("d_turn_undead_next", tier=T, cost=600, timeout_t=1800), H("a_apply1_k2", tier=T, cost=220),
         ],
     },
     "C11": {
@@ -128,7 +128,7 @@ PROPS = {
         "harnesses": [
             H("c11_timeout_iff", cost=40, entry="Foca::handle_timer(ChangeSuspectToDown)"), H("t_remove", cost=70, entry="Foca::handle_timer(RemoveDown)"),
             H("a_apply1_k1", cost=120), H("d_ping", cost=80), H("a_leave", cost=40),
-            H("c11_timeout_iff_k3", tier=T, cost=120), H("a_apply1_k2", tier=T, cost=220), H("d_gossip_upd", tier=T, cost=900, timeout_t=3600, mem_gb=44),
+            H("c11_timeout_iff_k3", tier=T, cost=120), H("a_apply1_k2", tier=T, cost=220), 
         ],
     },
     "C12": {
@@ -146,7 +146,7 @@ PROPS = {
             H("c13_stale_probe", cost=30), H("c13_stale_suspect", cost=45), H("c13_stale_gossip", cost=30), H("t_probe_k2", cost=60), H("t_announce", cost=65),
             H("c06_set_config_same", cost=60), H("a_apply1_k1", cost=120), H("a_change_identity", cost=50), H("a_reuse", cost=12), H("t_gossip_idle", cost=60),
             H("c13_stale_indirect", tier=T, cost=100), H("c13_stale_announce", tier=T, cost=85), H("c13_stale_announce_down", tier=T, cost=95), H("t_gossip", tier=T, cost=200),
-            H("t_announce_down", tier=T, cost=120), H("a_leave", tier=T), H("d_turn_undead_never", tier=T, cost=200), H("d_turn_undead_next", tier=T, cost=600, timeout_t=3000),
+            H("t_announce_down", tier=T, cost=120), H("a_leave", tier=T), H("d_turn_undead_never", tier=T, cost=200), 
             H("c11_timeout_iff", tier=T), H("t_indirect_k2", tier=T),
         ],
     },
@@ -171,8 +171,8 @@ PROPS = {
             H("bc_fill_2_a", cost=290, timeout_q=900, **BC), H("bc_add_keyed", cost=120, **BC), H("bc_budget_two_rounds", cost=100, **BC),
             H("c07_send_pb_17", cost=75), H("a_apply1_k1", cost=120), H("c01_idempotent", cost=130),
             H("c15_key_same_addr", cost=60, entry="Foca::handle_apply_summary x3 on the real backlog (no stubs)"), H("c15_key_diff_addr", cost=60), H("c15_key_returning", cost=60), H("bc_fill_1", cost=80, **BC), H("e4_message_gates_smt", engine="smt", group="gates", cost=80, entry="Message::{needs_piggyback, allow_custom_broadcasts, piggyback_only_active} (MIR -> SMT-LIB2, z3 + cvc5)", bounds="all 11 message kinds; 6 queries x 2 solvers"),
-            H("t_gossip_idle", tier=T), H("bc_fill_2_b", tier=T, cost=300, **BC), H("bc_fill_3_a", tier=T, cost=900, timeout_t=3000, **BC), H("bc_fill_3_b", tier=T, cost=900, timeout_t=3000, **BC),
-            H("bc_fill_3_c", tier=T, cost=900, timeout_t=3000, **BC), H("bc_fill_real_buffer", tier=T, **BC), H("t_gossip", tier=T, cost=200), H("c07_send_pb_22", tier=T, cost=130),
+            H("t_gossip_idle", tier=T), H("bc_fill_2_b", tier=T, cost=300, **BC), H("bc_fill_3_a", tier=T, cost=900, timeout_t=1800, **BC), H("bc_fill_3_b", tier=T, cost=900, timeout_t=1800, **BC),
+            H("bc_fill_3_c", tier=T, cost=900, timeout_t=1800, **BC), H("bc_fill_real_buffer", tier=T, **BC), H("t_gossip", tier=T, cost=200), H("c07_send_pb_22", tier=T, cost=130),
             H("c07_send_feed_17", tier=T), H("c07_send_bare_10", tier=T), H("a_gossip", tier=T, cost=90), H("t_probe_k2", tier=T),
         ],
     },
@@ -185,7 +185,7 @@ PROPS = {
         "harnesses": [
             H("bc_invalidate", cost=200, timeout_q=900, **BC), H("bc_fill_prefix_2", cost=300, timeout_q=900, **BC), H("c16_add_broadcast", cost=40), H("c16_broadcast_one", cost=120),
             H("d_gossip_custom", cost=65), H("d_ack_custom2", cost=80, entry="Foca::handle_data(Ack + two custom items)"), H("c07_send_bcast_15", cost=25), H("c16_broadcast_drain", cost=60, entry="Foca::broadcast on the real backlog (no stubs)"), H("e4_message_gates_smt", engine="smt", group="gates", cost=80, entry="Message::{needs_piggyback, allow_custom_broadcasts, piggyback_only_active} (MIR -> SMT-LIB2, z3 + cvc5)", bounds="all 11 message kinds; 6 queries x 2 solvers"),
-            H("bc_fill_prefix_1", tier=T, **BC), H("bc_fill_prefix_3", tier=T, cost=900, timeout_t=3000, **BC), H("c16_broadcast_empty", tier=T), H("d_broadcast_custom", tier=T),
+            H("bc_fill_prefix_1", tier=T, **BC), H("bc_fill_prefix_3", tier=T, cost=900, timeout_t=1800, **BC), H("c16_broadcast_empty", tier=T), H("d_broadcast_custom", tier=T),
             H("c07_send_pb_17", tier=T), H("c07_send_pb_22", tier=T, cost=130), H("c07_send_bcast_32", tier=T), H("c07_send_bare_10", tier=T),
         ],
     },
@@ -209,16 +209,16 @@ PROPS = {
         "bounds": BOUNDS_E1, "outside": "the composition over several instances; " + OUT_E1, "assumptions": [STUBS],
         "harnesses": [
             H("d_turn_undead_never", cost=200, timeout_q=900), H("d_turn_undead_losing", cost=200, timeout_q=900), H("d_feed_upd_tight", cost=150, timeout_q=900), H("d_ping", cost=80), H("d_ack", cost=70), H("d_gossip", cost=75), H("d_pingreq", cost=80),
-            H("d_turn_undead_next", tier=T, cost=600, timeout_t=3000), H("d_turn_undead", tier=T, cost=900, timeout_t=3600, mem_gb=40), H("d_announce", tier=T, cost=500, timeout_t=3000), H("d_announce_32", tier=T, cost=900, timeout_t=3600, mem_gb=40),
-            H("d_indirect_ping", tier=T), H("d_indirect_ack", tier=T), H("d_fwd_ack", tier=T, cost=105), H("d_feed", tier=T), H("d_broadcast", tier=T), H("d_gossip_upd", tier=T, cost=900, timeout_t=3600, mem_gb=44),
-            H("d_ping_upd", tier=T, cost=900, timeout_t=3600, mem_gb=44), H("c06_fuzz_gossip_7", tier=T, cost=120), H("d_turn_undead_k2", tier=T, cost=900, timeout_t=3000),
+            H("d_turn_undead_next", tier=T, cost=600, timeout_t=1800), H("d_turn_undead", tier=T, cost=900, timeout_t=1800, mem_gb=40), H("d_announce", tier=T, cost=500, timeout_t=1800), 
+            H("d_indirect_ping", tier=T), H("d_indirect_ack", tier=T), H("d_fwd_ack", tier=T, cost=105), H("d_feed", tier=T), H("d_broadcast", tier=T), 
+            H("c06_fuzz_gossip_7", tier=T, cost=120), 
         ],
     },
     "C19": {
         "level": "model_checking", "bounds": BOUNDS_E1 + "; Down records bearing the instance's own address (older and newer generations) allowed by Inv", "outside": OUT_E1, "assumptions": [STUBS],
         "harnesses": [
             H("t_announce_down", cost=120), H("t_announce", cost=65), H("t_probe_k2", cost=60), H("t_indirect_k2", cost=70), H("d_ping", cost=80), H("a_gossip", cost=90), H("a_apply1_k1", cost=120),
-            H("t_gossip", tier=T, cost=200), H("d_announce", tier=T, cost=500, timeout_t=3000), H("d_turn_undead_never", tier=T, cost=200), H("d_turn_undead_next", tier=T, cost=600, timeout_t=3000), H("a_leave", tier=T), H("a_change_identity", tier=T),
+            H("t_gossip", tier=T, cost=200), H("d_turn_undead_never", tier=T, cost=200), H("a_leave", tier=T), H("a_change_identity", tier=T),
             H("c16_broadcast_one", tier=T, cost=120), H("a_apply1_k2", tier=T, cost=220), H("c11_timeout_iff", tier=T),
         ],
     },
@@ -233,9 +233,9 @@ PROPS = {
             H("c20_pc_member_roundtrip", cost=30, **CD), H("c20_pc_header_pingreq", cost=60, **CD), H("c20_pc_member_short_buffer", cost=60, **CD),
             H("c20_pc_member_arbitrary_bytes", cost=60, **CD), H("c20_bc_member_encode_matches_reference", cost=90, **CD), H("c20_bc_member_arbitrary_bytes", cost=100, **CD), H("c20_bc_member_limit_3", cost=20, **CD), H("c20_bc_member_limit_0", cost=20, **CD),
         ] + [H("c20_pc_header_" + v, tier=T, cost=60, **CD) for v in ["ping", "ack", "indirect_ping", "indirect_ack", "fwd_ack", "announce", "feed", "gossip", "broadcast", "turn_undead"]]
-          + [H("c20_bc_header_" + v, tier=T, cost=200, timeout_t=3000, **CD) for v in ["ping", "pingreq", "fwd_ack", "announce", "turn_undead"]]
-          + [H("c20_pc_header_arbitrary_bytes", tier=T, cost=200, **CD), H("c20_bc_member_short_buffer", tier=T, cost=300, **CD), H("c20_bc_member_limit_5", tier=T, cost=900, timeout_t=3000, **CD), H("c20_bc_member_decode_reference", tier=T, cost=600, timeout_t=3000, mem_gb=44, **CD),
-             H("c07_send_feed_failing", tier=T, cost=600, timeout_t=3000), H("c07_send_pb_9", tier=T)],
+          + [H("c20_bc_header_" + v, tier=T, cost=200, timeout_t=1800, **CD) for v in ["ping", "pingreq", "fwd_ack", "announce", "turn_undead"]]
+          + [H("c20_pc_header_arbitrary_bytes", tier=T, cost=200, **CD), H("c20_bc_member_short_buffer", tier=T, cost=300, **CD), H("c20_bc_member_limit_5", tier=T, cost=900, timeout_t=1800, **CD), H("c20_bc_member_decode_reference", tier=T, cost=600, timeout_t=1800, mem_gb=44, **CD),
+             H("c07_send_pb_9", tier=T)],
     },
 }
 
